@@ -317,7 +317,7 @@ def policy_pass(rng, sc, tier, ev):
     return out
 
 
-def prompt_pass(rng, sc, tier, ev):
+def prompt_pass(rng, sc, tier, ev, maxlen=None):
     """every sequence of answers (y, n, a, s, an empty line, an unrecognised line; upper case too) of up to 3 (thorough: 4)
     lines at the overwrite prompt, for an archive of four files that are all present already: the files replaced must be
     exactly those TreeModel!Ask says (no strace here: only the final tree is compared)"""
@@ -334,12 +334,17 @@ def prompt_pass(rng, sc, tier, ev):
     open(a, "wb").write(arc.archive(t.members))
     alphabet = [b"y", b"n", b"a", b"s", b"", b"x", b"Y", b"S"]
     seqs = [()]
-    for L in range(1, (3 if tier == "quick" else 4) + 1):
+    for L in range(1, (maxlen or (3 if tier == "quick" else 4)) + 1):
         seqs += list(itertools.product(alphabet if L < 3 or tier != "quick" else alphabet[:6], repeat=L))
+    # the last line typed need not end in a newline: input that simply stops in the middle of an answer
+    seqs += [("NONL",) + q for q in [(b"y",), (b"x",), (b"n", b"a"), (b"",), (b"y", b"y", b"y", b"y"), (b"q", b"q")]]
     runs = []
 
     def one(k):
         seq = seqs[k]
+        nonl = len(seq) > 0 and seq[0] == "NONL"
+        if nonl:
+            seq = seq[1:]
         lines = list(seq)                         # (no padding: the input may end at a prompt, which ends the tool)
         rd = os.path.join(sc, "pr_%d" % k)
         os.makedirs(os.path.join(rd, "d"))
@@ -348,11 +353,22 @@ def prompt_pass(rng, sc, tier, ev):
             open(os.path.join(rd, rel), "wb").write(b"old " + rel.encode())
             os.chmod(os.path.join(rd, rel), 0o644)
             pre.append((rel, "file", b"old " + rel.encode(), 0o644))
-        p = V.run_bounded([lha, "x", a], capture_output=True, cwd=rd, env=V.run_env(), input=b"".join(x + b"\n" for x in lines), timeout=120)
+        typed = b"".join(x + b"\n" for x in lines)
+        if nonl:
+            typed = typed[:-1]
+        try:
+            p = V.run_bounded([lha, "x", a], capture_output=True, cwd=rd, env=V.run_env(), input=typed, timeout=120, cpu=20, fsize=32 << 20)
+        except subprocess.TimeoutExpired:
+            p = subprocess.CompletedProcess([], -9, b"", b"")
         if p.returncode not in (0, 1, 255):
-            raise V.HarnessError("lha x at the prompt exited %s: %s" % (p.returncode, p.stderr.decode(errors="replace")[-300:]))
+            # stopped by the harness' limits (it printed or ran for ever), or died: no action of the trace spec matches this
+            shutil.rmtree(rd, ignore_errors=True)
+            return [{"e": "Reset", "cwd": EG.loc_of(rd), "root": EG.loc_of(rd), "pre": [], "mode": "extract", "case": "prompt-" + b",".join(seq).decode()},
+                    {"e": "DidNotReturn", "code": p.returncode, "typed": list(typed), "stderr_tail": p.stderr.decode(errors="replace")[-200:]}]
         tree = EG.walk_tree(rd)
-        e = model_event(t, tree, [], [], pre, bytes((x + b"\n")[0] for x in lines), code=p.returncode)
+        # (a line that is not terminated is not an answer: the input ends while the tool is still reading it, which ends the tool)
+        answers = bytes((x + b"\n")[0] for x in (lines[:-1] if nonl else lines))
+        e = model_event(t, tree, [], [], pre, answers, code=p.returncode)
         shutil.rmtree(rd, ignore_errors=True)
         return [{"e": "Reset", "cwd": EG.loc_of(rd), "root": EG.loc_of(rd), "pre": [], "mode": "extract", "case": "prompt-" + b",".join(seq).decode()}, e]
     with cf.ThreadPoolExecutor(max_workers=V.NCPU) as ex:
